@@ -480,34 +480,31 @@ def StepDec (w : World) : Prop :=
     ((w.step (autoAct w)).pc ≠ .idle ∧ Psi (w.step (autoAct w)) ≤ Psi w)
 
 theorem sticky_none {w : World} (hL : LiveInv w) (hq : quietPc w.pc = false) :
-    w.lastTask = none ∧ w.getNextErr = false := by
+    w.lastTask = none ∧ (gnePc w.pc = false → w.getNextErr = false) := by
   have hs := hL.sticky
   unfold StickyOk at hs
-  cases hl : w.lastTask with
-  | some t =>
-    have := (hs (Or.inl (by simp [hl]))).1
-    rw [hq] at this; cases this
-  | none =>
+  constructor
+  · cases hl : w.lastTask with
+    | some t =>
+      have := (hs.1 (by simp [hl])).1
+      rw [hq] at this; cases this
+    | none => rfl
+  · intro hg'
     cases hg : w.getNextErr with
     | true =>
-      have := (hs (Or.inr hg)).1
-      rw [hq] at this; cases this
-    | false => exact ⟨rfl, rfl⟩
+      have := (hs.2.1 hg).1
+      rw [hg'] at this; cases this
+    | false => rfl
 
 theorem sticky_none' {w : World} (hL : LiveInv w) (hq : quietRet w.ret = false) :
-    w.lastTask = none ∧ w.getNextErr = false := by
+    w.lastTask = none := by
   have hs := hL.sticky
   unfold StickyOk at hs
   cases hl : w.lastTask with
   | some t =>
-    have := (hs (Or.inl (by simp [hl]))).2
+    have := (hs.1 (by simp [hl])).2
     rw [hq] at this; cases this
-  | none =>
-    cases hg : w.getNextErr with
-    | true =>
-      have := (hs (Or.inr hg)).2
-      rw [hq] at this; cases this
-    | false => exact ⟨rfl, rfl⟩
+  | none => rfl
 
 theorem dec_idle {w : World} (hpc : w.pc = .idle) : StepDec w := by
   unfold StepDec
@@ -702,6 +699,7 @@ theorem dec_s_select {w : World} (hQ : PQ w) (hpc : w.pc = .s_select) :
     StepDec w ∨ Blocks w := by
   have hL := hQ.round.1
   have ⟨hlt, hge⟩ := sticky_none hL (by rw [hpc]; rfl)
+  have hge : w.getNextErr = false := hge (by rw [hpc]; rfl)
   have he : w.obs.hook.lastErr = none := hQ.round.2.2 hpc
   have ⟨hl1, hl2⟩ := lvl_select_pos hpc
   by_cases hp : w.obs.clock.pending = true
@@ -1432,6 +1430,7 @@ theorem drive_dec_gen : ∀ (n : Nat) (w : World), PQ w → rank w ≤ n →
       have h0 := blocks_nSched hQ hb
       obtain ⟨hpc, hp, hc, hr, ha⟩ := hb
       have ⟨hl, hg⟩ := sticky_none hQ.round.1 (by rw [hpc]; rfl)
+      have hg : w.getNextErr = false := hg (by rw [hpc]; rfl)
       have he := hQ.round.2.2 hpc
       rw [drive_idle (by rw [hstep]; rfl), hstep]
       exact ⟨rfl, rfl, h0, hr, hc, hp, ha, hl, hg, he⟩
